@@ -284,8 +284,8 @@ Section Retry.
   Variable bs : list Z.
   (* the decoder asks for more capacity only while the capacity is below the input length,
      and is itself total *)
-  Hypothesis dec_cap : forall cap, dec cap bs = Err EOptCap -> cap < blen bs.
-  Hypothesis dec_total : forall cap, dec cap bs <> Fuel.
+  Hypothesis dec_cap : forall cap, 0 <= cap -> dec cap bs = Err EOptCap -> cap < blen bs.
+  Hypothesis dec_total : forall cap, 0 <= cap -> dec cap bs <> Fuel.
 
   Lemma grow_cap_ge cap : 0 <= cap -> 16 <= grow_cap cap /\ 2 * cap <= grow_cap cap.
   Proof. unfold grow_cap. lia. Qed.
@@ -296,14 +296,14 @@ Section Retry.
     induction f as [|f IH]; intros cap Hc Hb.
     - cbn [pool_decode]. change (2 ^ Z.of_nat 0) with 1 in Hb.
       destruct (dec cap bs) as [[m n]|e| |] eqn:E; try discriminate.
-      + destruct e; try discriminate. apply dec_cap in E. lia.
-      + exfalso. exact (dec_total cap E).
+      + destruct e; try discriminate. apply dec_cap in E; lia.
+      + exfalso. exact (dec_total cap ltac:(lia) E).
     - cbn [pool_decode]. destruct (dec cap bs) as [[m n]|e| |] eqn:E; try discriminate.
       + destruct e; try discriminate. apply IH.
         * pose proof (grow_cap_ge cap ltac:(lia)). lia.
         * pose proof (grow_cap_ge cap ltac:(lia)) as [_ G]. rewrite Nat2Z.inj_succ, Z.pow_succ_r in Hb by lia.
           assert (0 < 2 ^ Z.of_nat f) by (apply Z.pow_pos_nonneg; lia). nia.
-      + exfalso. exact (dec_total cap E).
+      + exfalso. exact (dec_total cap ltac:(lia) E).
   Qed.
 
   (* from any capacity >= 0 (0 included: the F8 situation) *)
@@ -318,7 +318,7 @@ Section Retry.
       + pose proof (grow_cap_ge cap Hc). lia.
       + rewrite Z2Nat.id by lia. pose proof (grow_cap_ge cap Hc) as [G _].
         assert (0 < 2 ^ L) by (apply Z.pow_pos_nonneg; lia). nia.
-    - exfalso. exact (dec_total cap E).
+    - exfalso. exact (dec_total cap Hc E).
   Qed.
 End Retry.
 
@@ -326,8 +326,47 @@ Theorem udp_retry_terminates bs cap : bytes_ok bs = true -> 0 <= cap ->
   pool_decode (pool_fuel bs) udp_decode cap bs <> Fuel.
 Proof.
   intros Hb Hc. apply pool_decode_terminates; [| |exact Hc].
-  - intros c E. pose proof (udp_agree c bs Hb) as A. destruct (ref_udp bs).
+  - intros c _ E. pose proof (udp_agree c bs Hb) as A. destruct (ref_udp bs).
     + destruct A as [A|[_ A]]; [rewrite A in E; discriminate|exact A].
     + destruct A as [e [A AC]]. rewrite A in E. injection E as ->. apply AC. reflexivity.
-  - intros c E. destruct (udp_total c bs Hb) as [[m T]|[e T]]; rewrite T in E; discriminate.
+  - intros c _ E. destruct (udp_total c bs Hb) as [[m T]|[e T]]; rewrite T in E; discriminate.
+Qed.
+
+(* ---------- pooled round trip (C01): MarshalWithEncoder then UnmarshalWithDecoder ---------- *)
+Lemma pool_decode_ok_or_fuel dec bs (m : msg) (n : Z) :
+  (forall cap, 0 <= cap -> dec cap bs = Ok (m, n) \/ dec cap bs = Err EOptCap) ->
+  forall fuel cap, 0 <= cap -> pool_decode fuel dec cap bs = Fuel \/ exists c, pool_decode fuel dec cap bs = Ok (m, n, c).
+Proof.
+  intros H. induction fuel as [|f IH]; intros cap Hc; cbn [pool_decode]; [left; reflexivity|].
+  destruct (H cap Hc) as [E|E]; rewrite E.
+  - right. eexists. reflexivity.
+  - apply IH. unfold grow_cap. lia.
+Qed.
+
+Theorem udp_pool_roundtrip m cap : wf_udp m = true -> 0 <= cap ->
+  exists c, pool_decode (pool_fuel (spec_udp_bytes m)) udp_decode cap (spec_udp_bytes m) = Ok (m, blen (spec_udp_bytes m), c).
+Proof.
+  intros Hwf Hc.
+  assert (Hcases : forall c, 0 <= c -> udp_decode c (spec_udp_bytes m) = Ok (m, blen (spec_udp_bytes m)) \/ udp_decode c (spec_udp_bytes m) = Err EOptCap).
+  { intros c H0. rewrite (udp_decode_cases m c Hwf H0). destruct (blen (m_opts m) <=? c); [left|right]; reflexivity. }
+  destruct (pool_decode_ok_or_fuel udp_decode _ _ _ Hcases (pool_fuel (spec_udp_bytes m)) cap Hc) as [F|Ok]; [|exact Ok].
+  exfalso. revert F. apply pool_decode_terminates; [| |exact Hc].
+  - intros c H0 E. rewrite (udp_decode_cases m c Hwf H0) in E. destruct (blen (m_opts m) <=? c) eqn:El; [discriminate|].
+    apply Z.leb_gt in El. pose proof (spec_options_long (m_opts m) 0). rewrite spec_udp_len.
+    pose proof (blen_nonneg (m_tok m)). pose proof (blen_nonneg (spec_payload (m_pay m))). lia.
+  - intros c H0 E. destruct (Hcases c H0) as [T|T]; rewrite T in E; discriminate.
+Qed.
+
+Theorem tcp_pool_roundtrip m cap : wf_tcp messageMaxLen m = true -> 0 <= cap ->
+  exists c, pool_decode (pool_fuel (spec_tcp_bytes m)) tcp_decode cap (spec_tcp_bytes m) = Ok (tcp_view m, blen (spec_tcp_bytes m), c).
+Proof.
+  intros Hwf Hc.
+  assert (Hcases : forall c, 0 <= c -> tcp_decode c (spec_tcp_bytes m) = Ok (tcp_view m, blen (spec_tcp_bytes m)) \/ tcp_decode c (spec_tcp_bytes m) = Err EOptCap).
+  { intros c H0. rewrite (tcp_decode_cases m c Hwf H0). destruct (blen (m_opts m) <=? c); [left|right]; reflexivity. }
+  destruct (pool_decode_ok_or_fuel tcp_decode _ _ _ Hcases (pool_fuel (spec_tcp_bytes m)) cap Hc) as [F|Ok]; [|exact Ok].
+  exfalso. revert F. apply pool_decode_terminates; [| |exact Hc].
+  - intros c H0 E. rewrite (tcp_decode_cases m c Hwf H0) in E. destruct (blen (m_opts m) <=? c) eqn:El; [discriminate|].
+    apply Z.leb_gt in El. pose proof (spec_options_long (m_opts m) 0). rewrite spec_tcp_eq, blen_app, spec_body_len.
+    pose proof (blen_nonneg (spec_tcp_hdr m)). pose proof (blen_nonneg (spec_payload (m_pay m))). lia.
+  - intros c H0 E. destruct (Hcases c H0) as [T|T]; rewrite T in E; discriminate.
 Qed.
